@@ -5,7 +5,7 @@
    square roots and inverses enter as witnesses (sqrt_ok, inv_ok). *)
 From Coq Require Import List Arith Bool ZArith QArith Qcanon Ring_theory.
 Import ListNotations.
-Require Import NV.C13.Model NV.C13.Exec NV.C13.Proofs.
+Require Import NV.C13.Model NV.C13.Exec NV.C13.Proofs NV.C13.ProofsInd.
 Local Open Scope nat_scope.
 
 Definition cring (T : Type) (t0 t1 : T) (tadd tmul : T -> T -> T) (topp : T -> T) : Prop :=
@@ -32,7 +32,7 @@ Theorem C13_cov_sum_of_independent_draws :
     reads T t0 t1 k nb1 S1 -> reads T t0 t1 (k + nb1) nb2 S2 ->
     is_cov T t0 t1 tadd tmul N k nb1 n S1 C1 -> is_cov T t0 t1 tadd tmul N (k + nb1) nb2 n S2 C2 ->
     is_cov T t0 t1 tadd tmul N k (nb1 + nb2) n (fun xi j => tadd (S1 xi j) (S2 xi j)) (fun v j => tadd (C1 v j) (C2 v j)).
-Proof. exact cov_sum. Qed.
+Proof. exact Proofs.cov_sum. Qed.
 
 (* ---- ScalingOperator ---- *)
 Theorem C13_scaling_draw :
@@ -159,9 +159,47 @@ Theorem C13_refuse_sandwich_inverse_without_invertible_bun :
     draw T t0 t1 tadd tmul tinv tsqrt tneg tzero (CSand T bun cheese) n true k xi = Refuse RNotImplemented.
 Proof. exact sandwich_refuses_inverse. Qed.
 
+(* ---- ONE theorem for every operator expression -------------------------------------------------
+   [covop N o n inv C] (ProofsInd.v) assigns to an expression over scalings, diagonals (any _trafo),
+   sandwiches (forward through any bun with an adjoint, inverse through an invertible bun), sums,
+   OperatorAdapters and InversionEnablers its covariance operator C (forward) or C^-1 (inverse).
+   Whenever it does, draw_sample succeeds for every noise stream, the sample is S(xi) with zero
+   imaginary part, reads exactly the nb blocks it consumed, and has covariance <u, C v>. *)
+Theorem C13_draw_sound_every_expression :
+  forall T t0 t1 tadd tmul topp tinv tsqrt tneg tzero, cring T t0 t1 tadd tmul topp ->
+  forall N (o : cop T) n inv C,
+    covop T t0 t1 tadd tmul tinv tsqrt tneg tzero N o n inv C ->
+    forall k, exists (S I : noise T -> vec T) (nb : nat),
+      (forall xi, draw T t0 t1 tadd tmul tinv tsqrt tneg tzero o n inv k xi = Ok (S xi, I xi, k + nb)) /\
+      (forall xi j, I xi j = t0) /\ reads T t0 t1 k nb S /\ is_cov T t0 t1 tadd tmul N k nb n S C.
+Proof. exact draw_sound. Qed.
+
+(* dense-matrix buns (the executable [mklin] of the correspondence) satisfy the hypotheses of [covop] *)
+Theorem C13_matrix_bun_adjoint :
+  forall T t0 t1 tadd tmul topp, cring T t0 t1 tadd tmul topp ->
+  forall (rows : list (list T)) n u w, Forall (fun r => length r = n) rows ->
+    dot T t0 tadd tmul (length rows) (mat_apply T t0 tadd tmul rows u) w = dot T t0 tadd tmul n u (mat_adj T t0 tadd tmul rows w).
+Proof. exact matrix_adjoint. Qed.
+
 (* ---- non-vacuity ---- *)
 Example C13_Qc_is_a_cring : cring Qc Q0 Q1 Qcplus Qcmult Qcopp.
 Proof. exact Qcrt. Qed.
+
+(* a concrete expression:  (B^H (4 * 1) B) + diag(1, 4).inverse  on two pixels, forward draw *)
+Example C13_covop_example :
+  exists C, covop Qc Q0 Q1 Qcplus Qcmult Qcinv qsqrt qneg qzero 2
+              (CSum Qc [CSand Qc (mklin [[Q1; q 2 1]; [Q0; Q1]] None) (CScal Qc (q 4 1) false DReal);
+                        CAdapt Qc (CDiag Qc (vec_of [Q1; q 4 1]) false 2 DReal) 0]) 2 false C.
+Proof.
+  eexists. apply cov_sum. apply covs_cons; [discriminate| |apply covs_cons; [discriminate| |apply covs_nil]].
+  - apply cov_sand_fwd.
+    + intros u w. apply (matrix_adjoint Qc Q0 Q1 Qcplus Qcmult Qcopp Qcrt [[Q1; q 2 1]; [Q0; Q1]] 2 u w). repeat constructor.
+    + apply (matrix_zero_pres Qc Q0 Q1 Qcplus Qcmult Qcopp Qcrt).
+    + apply cov_scal_fwd; [cbn; auto|reflexivity|apply Qc_is_canon; vm_compute; reflexivity].
+  - apply cov_adapt. cbn. apply cov_diag_div; [auto|reflexivity|reflexivity|reflexivity|].
+    intros j Hj. destruct j as [|[|j]]; [| |inversion Hj as [|? H1]; inversion H1 as [|? H2]; inversion H2];
+      split; apply Qc_is_canon; vm_compute; reflexivity.
+Qed.
 
 Example C13_sqrt_witness : sqrt_ok Qc Qcmult qsqrt (q 9 4) /\ inv_ok Qc Q1 Qcmult Qcinv (qsqrt (q 9 4)).
 Proof. split; apply Qc_is_canon; vm_compute; reflexivity. Qed.
